@@ -355,6 +355,10 @@ pub fn pv_tok(l: &Lit) -> String {
 pub struct GraphShape {
     pub nodes: usize,
     pub rels: usize,
+    /// largest number of relationship copies incident to one node (a self-loop counts once)
+    pub max_deg: usize,
+    /// some relationship identity has parallel copies (rows that differ only in an anonymous relationship coincide)
+    pub parallel: bool,
 }
 
 /// crude upper estimate of the number of intermediate rows of a query on a graph of the given shape
@@ -362,13 +366,21 @@ pub struct GraphShape {
 /// OptionalWhereFixup evaluations)
 pub fn estimate_rows(q: &[Clause], g: &GraphShape) -> f64 {
     let n = g.nodes.max(1) as f64;
-    let deg = (g.rels as f64 / n).max(0.5);
+    // the worst node decides (degrees are far from uniform on 3–5 nodes with parallel copies and self-loops)
+    let deg = (g.max_deg as f64).max(0.5);
     let mut est = 1.0f64;
     let mut peak = 1.0f64;
     let mut bound: Vec<String> = vec![];
+    // rows may coincide: parallel copies behind anonymous relationships, repeated UNWIND values, projections
+    let mut dups = g.parallel;
     for c in q {
         match c {
-            Clause::Match(_, pats) => {
+            Clause::Match(optional, pats) => {
+                if *optional && dups {
+                    // OptionalWhereFixup re-associates matches to outer rows by value: d equal outer rows each
+                    // receive the matches of all d (C11-optional-duplicate-outer-rows) — up to est² rows
+                    est *= est.max(1.0);
+                }
                 for p in pats {
                     let start_bound = p.start.var.as_ref().is_some_and(|v| bound.contains(v));
                     let mut f = if start_bound { 1.0 } else { n };
@@ -384,8 +396,12 @@ pub fn estimate_rows(q: &[Clause], g: &GraphShape) -> f64 {
                     est *= f.max(1.0);
                 }
             }
-            Clause::Unwind(Expr::List(xs), _) => est *= xs.len().max(1) as f64,
+            Clause::Unwind(Expr::List(xs), _) => {
+                est *= xs.len().max(1) as f64;
+                dups = true;
+            }
             Clause::With(p, _) => {
+                dups = true;
                 if let Some(l) = p.limit {
                     est = est.min(l.max(1) as f64);
                 }
@@ -439,6 +455,9 @@ pub fn gen_graph(rng: &mut Rng, out: &mut dyn Write) -> GraphShape {
         .unwrap();
     }
     let mut nrels = 0;
+    let mut degs = vec![0usize; n.max(1)];
+    let mut seen: Vec<(u64, &str, u64)> = vec![];
+    let mut parallel = false;
     if n > 0 {
         let m = if rng.chance(1, 8) { rng.below(3) } else { rng.range(3, 8) as u64 };
         let mut prev: Option<(u64, &str, u64)> = None;
@@ -453,13 +472,21 @@ pub fn gen_graph(rng: &mut Rng, out: &mut dyn Write) -> GraphShape {
                 }
             };
             prev = Some((s, t, d));
+            if seen.contains(&(s, t, d)) {
+                parallel = true;
+            }
+            seen.push((s, t, d));
+            degs[s as usize] += 1;
+            if d != s {
+                degs[d as usize] += 1;
+            }
             let props = if rng.chance(1, 3) { format!("w=i{}", rng.pick(INTS)) } else { "-".into() };
             writeln!(out, "r {} {} {} {}", s, t, d, props).unwrap();
             nrels += 1;
         }
     }
     writeln!(out, "commit").unwrap();
-    GraphShape { nodes: n, rels: nrels }
+    GraphShape { nodes: n, rels: nrels, max_deg: degs.iter().copied().max().unwrap_or(0), parallel }
 }
 
 // ---------------------------------------------------------------- queries
@@ -1140,6 +1167,17 @@ pub fn generate_query_stream(rng: &mut Rng, n: usize, _tier: &str, out: &mut dyn
                     Gen { rng, params: false }.query()
                 };
                 tries += 1;
+            }
+            if estimate_rows(&q, &shape) > 1500.0 {
+                // nothing small enough in 30 draws: a query that is always cheap
+                q = vec![
+                    Clause::Match(false, vec![PathPat { start: NodePat { var: Some("n1".into()), ..Default::default() }, steps: vec![] }]),
+                    Clause::Return(Proj {
+                        items: vec![Item { expr: ItemExpr::Plain(Expr::Var("n1".into())), alias: "n1".into() }],
+                        ..Default::default()
+                    }),
+                ];
+                mode = "bag".into();
             }
             let text = esc(&query_text(&q));
             let sx = query_sx(&q);
